@@ -138,9 +138,10 @@ func checkC11(c *Ctx) {
 			dk := fl.K.Key(deleg)
 			argsOK := len(deleg.Call.Args) == 2 && fl.K.Key(deleg.Call.Args[0]) == "p1" && fl.K.Key(deleg.Call.Args[1]) == "p2"
 			var bad []string
-			for _, site := range sites {
-				if calleeIs(site.Common(), insert) && !errNilOf(fl.At(site), is(dk)) {
-					bad = append(bad, "insert at "+p.Pos(site.Pos())+" not dominated by "+delegName+" == nil")
+			// insert sites in the function or in private helpers it calls (facts in the function's terms)
+			for _, ds := range deepSites(fl, func(cc *ssa.CallCommon) bool { return calleeIs(cc, insert) }, 0) {
+				if !errNilOf(ds.Facts, is(dk)) {
+					bad = append(bad, "insert at "+p.Pos(ds.Site.Pos())+" not dominated by "+delegName+" == nil")
 				}
 			}
 			for _, e := range successExits(fl, 0) {
